@@ -501,3 +501,7 @@ def replay(d):
         judge_frame(c, d['msgs'], chunks, got, end, 'replay')
         return bool(c.violations), f'received {got}, then {end}'
     return False, 'unknown replay kind'
+
+
+from ..conc import driver as _conc  # noqa: E402
+_conc.wrap(globals(), 'C19')
